@@ -646,7 +646,7 @@ func genSchemas() {
 	b.WriteString("(* GENERATED by tools/gen from the result types of pkg/scan/{arp,tcp,icmp,socks5,elastic,docker}\n" +
 		"   (struct tags, generated easyjson encoders, MarshalJSON and ID methods). Do not edit. *)\n")
 	b.WriteString("From Coq Require Import ZArith Bool Ascii String List.\nFrom SX Require Import Base.Bytes Model.Json.\n" +
-		"Import ListNotations.\nOpen Scope Z_scope.\nOpen Scope string_scope.\n\n")
+		"Import ListNotations.\nLocal Open Scope Z_scope.\nLocal Open Scope string_scope.\n\n")
 	var names, pairs []string
 	for _, t := range types {
 		p := parseDir(filepath.Join(*repo, t.dir))
